@@ -65,7 +65,9 @@ FormsOf(k) == [Fm1 |-> <<BT, Font("F2", "11"), Op("Td", <<"20", "20">>), S1(Wd(k
 Marked(k) ==         \* artifacts (both forms), a plain span, ActualText replacing what is shown
   <<Art, BT, Font("F1", "9"), Op("Td", <<"300", "1900">>), S1(<<72, 69, 65, 68, 69, 82, 55>>), ET, EMC,
     BT, Font("F1", "12"), Op("Td", <<"72", "800">>), S1(Wd(k)), Span, S1(Wd(k + 1)), EMC, Op("Td", <<"0", "-15">>),
-    Actual(IF k % 2 = 0 THEN <<102, 105, 110, 101>> ELSE <<20013, 25991, 33>>), S1(<<64, 35>>), Op("TL", <<"13">>), Quote(<<36>>), EMC, Op("Td", <<"0", "-15">>), S1(Wd(k + 2)), ET,
+    Op("TL", <<"13">>), Actual(IF k % 2 = 0 THEN <<102, 105, 110, 101>> ELSE <<20013, 25991, 33>>)>>
+    \o (IF k % 2 = 0 THEN <<S1(<<64, 35>>), Quote(<<36>>)>> ELSE <<Quote(<<64, 35, 36, 37, 38>>), S1(<<36>>)>>)      \* the scope opens with Tj, or with ' (a new line)
+    \o <<EMC, Op("Td", <<"0", "-15">>), S1(Wd(k + 2)), ET,
     ArtP, BT, Font("F1", "9"), Op("Td", <<"300", "30">>), S1(<<112, 97, 103, 101, 57, 57>>), ET, EMC>>
 Dense(k) ==          \* many short shows on one baseline, overlapping positions, tiny font: whatever the layout logic makes of it
   <<BT, Font("F1", "1"), Op("Td", <<"500", "500">>), S1(<<97>>), S1(<<98>>), Op("Td", <<"0", "0">>), S1(<<97>>), Op("Td", <<"-0.5", "0">>), S1(<<99>>), S1(Wd(k)),
